@@ -38,8 +38,51 @@ thorough: in addition the full parameter products of `_product_lattice` (54 HEM,
                                                                         intensity() = int nu
  mart-chain  exponential models x small grids (fixed 5 / 3 / 8 points,  b := process_drift() + mu_h* - mu~*  (mu_h*, mu~* recomputed by
              model-truncated uniform, geometric with bounds; 0 or 1     quadrature over the cells of the axis) satisfies
-             refinement)  through the real MarkovChainProcess           b + sigma^2/2 + int_T (e^x-1-x c~(x)) nu =
-                                                                        (r-d) - int_{R\\T} (e^x-1-x c_R(x)) nu   (T = grid truncation)
+             refinement)  through the real MarkovChainProcess;          b + sigma^2/2 + int_T (e^x-1-x c~(x)) nu =
+             x representation history of the caller's model BEFORE      (r-d) - int_{R\\T} (e^x-1-x c_R(x)) nu   (T = grid truncation,
+             the chain is built, CHAIN_PRE_REPS = {ZERO, CENTER,        R = the representation declared when the chain is built);
+             ONEONE, TILDE, TILDE>CENTER, ONEONE>TILDE} (direct         then the history initialisation again / for stochastic
+             models, first grid)                                        payoff dates / with a maximum step / after a chain for
+                                                                        another model was built / again: process_drift() unchanged
+ mart-direct (the same models) x CHAIN_PRE_REPS: set_representation     exponential models: same identity (their simulation drift is
+             before and after LevyProcess(model) is constructed         written in the representation of construction). Levy
+                                                                        models: NOTE only (LEVY_DIRECT_AFTER_REPR_IS_VIOLATION)
+ route       every spec reached through a construction route other      every public quantity entering the property (triplet,
+             than the direct one (see "Construction routes")            density at 8 points, exponent / characteristic function on
+                                                                        U, cumulants 1..6, omega, x0, drift, process_drift,
+                                                                        intensity) equals that of the directly constructed model
+ path-       directly constructed models x {LevyProcess,                ONE process object asked for deterministic_path on the
+ history     MarkovChainProcess (exponential, fixed 5-point grid)}      history g_i, g_j for EVERY ordered pair of the 12 grids of
+                                                                        TIME_GRIDS (equal length and end points but other dates,
+                                                                        other maturity, late start, 1/2/3 dates, zeros(1)/ones(1),
+                                                                        empty); the same grids with a second object of the class
+                                                                        (another model) asked just before; the caller's array
+                                                                        overwritten in place between two requests: every answer is
+                                                                        x0 + process_drift * (its own) times
+ coupling-   exponential models (direct; quick: first rate pair) x      the real CouplingMarkovChain driven as the multilevel engine
+ levels      fixed 3-point grid (thorough: + uniform) x 2 levels        does (initialisation, path manager, next_level twice): after
+                                                                        every step every path manager built so far answers
+                                                                        x0 + b_l t (fine) and x0 + b_{l-1} t (coarse) on 8 colliding
+                                                                        grids, b_l = drift of a chain built afresh on a fresh grid
+                                                                        refined l times (the object mart-chain judges)
+
+In addition: exponent - the exponent / log characteristic function called with an ARRAY of arguments (real, complex: what the
+COS pricer does) equals the scalar calls; repr - besides levy_exponent(1.3), cumulant1 and for exponential models
+log_characteristic_function(1,-i), omega, drift() and (BS/HEM/Merton) process_drift() are unchanged by every history.
+
+Construction routes (the properties quantify over models, not over how they were built; key suffix `@route`).  Every spec of
+both tiers is followed by its "reinit" twin (mc.alphabets.with_reinit: a parameter object built with the DONOR values,
+every attribute re-assigned, initialisation(), model constructor - what model/utils.py's calibration helpers do). The first
+spec of each family (quick) / every spec of the base lattice and of EXTRA (thorough) is also reached through
+  reinit-one:<p>  for every constructor parameter p: ONE parameter object, p moved to the donor value, initialisation(), a model
+                  built and used, p moved back, initialisation(), model built (the loop of calibrate_model_parameter);
+  deepcopy, dill  a used model copied / pickled (what MarkovChainProcess and every pool chunk of the engines do);
+  after-donor     a second model of the same class with other parameters built and used just before (class-level leaks);
+  calibration     the model returned by the library's run_default_calibration (maturity 1, bs_sigma 0.25), whose calibrated
+                  parameter value is whatever the root finder returns - all oracles are parameter-agnostic; for a Levy spec the
+                  `.levy_model` of the calibrated exponential model.
+Every sub-check that takes models takes all of these (path-history / coupling-levels / the representation pre-histories:
+direct models only - the route does not enter that code).
 
 Not in the alphabet (the statement is silent or the quantity does not exist): arguments outside the strip of finite
 exponential moments (margin 0.4) and exponential models whose E[S_t] is infinite or ill-conditioned (right decay of the
@@ -49,7 +92,10 @@ drift); `ExponentialOfLevyModel.levy_exponent` (not defined on the exponential c
 as a note, the exponential models are observed through `log_characteristic_function`, as the property's observe_at
 says); the law of `jump_increment` (C02/C15 territory); Levy VG/CGMY direct simulation (infinite intensity: not simulable
 directly); grids that are not well formed (origin at an end, non-finite points: C13); the mean of a Levy model (any drift
-is a legitimate model as long as exponent, triplet, cumulants and simulation drift agree on it).
+is a legitimate model as long as exponent, triplet, cumulants and simulation drift agree on it); calibrations without
+solution (CGMY y = -0.5: counted `route_outside_alphabet`); routes for PureDiffusiveModel other than deepcopy / dill (it has no
+parameter object); mutation of a model's attributes (spot, r, d, parameters) AFTER the model was constructed (the library
+itself rebuilds the model); in-place modification of an array RETURNED by deterministic_path; scalar / list / 2-d `times`.
 
 Quadrature.  QUADPACK on pieces split at 0, +-1 and the truncation points; on pieces touching the origin the substitution
 x = +-t^8 is applied first, because with the raw integrand |x|^(-0.8) (CGMY y = 1.8) QUADPACK's error estimate was found
@@ -60,8 +106,11 @@ the substitution the quadrature reproduces Gamma-function closed forms to <= 7e-
 from __future__ import annotations
 
 import cmath
+import copy
+import inspect
 import json
 import math
+import os
 import warnings
 
 import numpy as np
@@ -74,9 +123,12 @@ from mc import oracle as O
 PID = "C10"
 LEVEL = "model_checking"
 RULE = (
-    "complete product of the model lattice with the argument list / time list / grid menu of each sub-check, plus BFS to "
-    "closure over histories of set_representation on fresh models; a case is non-trivial when at least one library value "
-    "was compared with a quadrature value whose own error estimate was below the tolerance; distinct = distinct case dict"
+    "complete product of the model lattice (every spec also through its construction routes: re-initialised parameter objects, "
+    "copies, calibration helper) with the argument list / time list / grid menu of each sub-check, plus BFS to closure over "
+    "histories of set_representation on fresh models, every ordered pair of the time-grid menu as consecutive requests on one "
+    "process object, and the initialisation / next_level histories of the chain and of its coupling; a case is non-trivial "
+    "when at least one library value was compared with a reference (quadrature value whose own error estimate was below the "
+    "tolerance, or x0 + drift * t); distinct = distinct case dict"
 )
 ASSUMPTIONS = [
     "the oracle is scipy QUADPACK / mpmath tanh-sinh quadrature of the model's own density nu.__call__, split at 0 and +-1 "
@@ -155,31 +207,59 @@ def _product_lattice():
     return out
 
 
-def _specs(tier, exp, families=("hem", "merton", "vg", "cgmy")):
+ROUTES_RICH = ("deepcopy", "dill", "after-donor", "calibration")
+CALIBRATION = {"maturity": 1.0, "bs_sigma": 0.25}  # the library default bs_sigma = 0.10 is below the jump volatility of HEM
+
+
+class _Outside(Exception):
+    """The construction route does not exist for that model (e.g. the root finder of the calibration has no solution)."""
+
+
+def _param_names(fam):
+    return {"hem": ["sigma", "p", "eta1", "eta2", "intensity"], "merton": ["sigma", "mu_j", "sigma_j", "intensity"],
+            "vg": ["sigma", "nu", "theta"], "cgmy": ["c", "g", "m", "y"], "bs": ["sigma"]}.get(fam, [])
+
+
+def _routes(fam, rich):
+    """Construction routes of one model spec besides the direct one (see the module docstring)."""
+    if fam == "pdiff":  # PureDiffusiveModel(mu, sigma) has no public parameter object
+        return ["deepcopy", "dill"] if rich else []
+    out = ["reinit"]
+    if rich:
+        out += ["reinit-one:" + n for n in _param_names(fam)]
+        out += [r for r in ROUTES_RICH if not (r == "calibration" and fam == "bs")]
+    return out
+
+
+def _specs(tier, exp, families=("hem", "merton", "vg", "cgmy"), routes=True):
     """Model specs. quick = the complete 1-d lattice of DESIGN section 5 plus the EXTRA points (every branch class of the
     CGMY activity index, one-sided HEM, symmetric / skewed VG, heavy right tail m = 1.5); thorough = in addition the full
     parameter products of `_product_lattice`. Exponential models whose E[S_t] is infinite or ill-conditioned (right decay
-    of the density <= 1 + MARGIN) are not in the alphabet."""
-    out = list(A.model_specs("thorough", families=tuple(f for f in families if f != "pdiff"), exp=(exp,)))
-    lat = [EXTRA]
+    of the density <= 1 + MARGIN) are not in the alphabet.
+
+    With routes=True every spec is followed by its construction-route twins: the "reinit" twin of mc.alphabets.with_reinit
+    for EVERY spec of both tiers, and the rich menu of `_routes` for the first spec of each family (quick) / for every spec
+    of the base lattice and of EXTRA (thorough)."""
+    out = [(sp, True) for sp in A.model_specs("thorough", families=tuple(f for f in families if f != "pdiff"), exp=(exp,))]
+    lat = [(EXTRA, True)]
     if tier == "thorough":
-        lat.append(_product_lattice())
-    for table in lat:
+        lat.append((_product_lattice(), False))
+    for table, rich in lat:
         for fam in families:
             for params in table.get(fam, []):
                 if exp:
                     for r, d in A.RATES:
-                        out.append({"family": fam, "exp": True, "params": params, "r": r, "d": d, "spot": 100.0})
+                        out.append(({"family": fam, "exp": True, "params": params, "r": r, "d": d, "spot": 100.0}, rich))
                 else:
-                    out.append({"family": fam, "exp": False, "params": params})
+                    out.append(({"family": fam, "exp": False, "params": params}, rich))
     if exp and "bs" in families and tier == "thorough":
         for r, d in A.RATES:
-            out.append({"family": "bs", "exp": True, "params": {"sigma": 0.0}, "r": r, "d": d, "spot": 100.0})
+            out.append(({"family": "bs", "exp": True, "params": {"sigma": 0.0}, "r": r, "d": d, "spot": 100.0}, True))
     if not exp and "pdiff" in families:
-        out.append({"family": "pdiff", "exp": False, "params": {"mu": 0.03, "sigma": 0.2}})
-        out.append({"family": "pdiff", "exp": False, "params": {"mu": -0.1, "sigma": 0.0}})
-    seen, res = set(), []
-    for sp in out:
+        out.append(({"family": "pdiff", "exp": False, "params": {"mu": 0.03, "sigma": 0.2}}, True))
+        out.append(({"family": "pdiff", "exp": False, "params": {"mu": -0.1, "sigma": 0.0}}, True))
+    seen, res, fams = set(), [], set()
+    for sp, rich in out:
         k = json.dumps(sp, sort_keys=True)
         if k in seen:
             continue
@@ -188,15 +268,118 @@ def _specs(tier, exp, families=("hem", "merton", "vg", "cgmy")):
             if not _admissible(complex(0.0, -1.0), _decays(sp, _make({**sp, "exp": False}))):
                 continue
         res.append(sp)
+        if not routes:
+            continue
+        first = sp["family"] not in fams
+        fams.add(sp["family"])
+        twins = A.with_reinit([sp], families=("hem", "merton", "vg", "cgmy", "bs"))[1:]  # the shared "reinit" twin
+        twins += [dict(sp, via=v) for v in _routes(sp["family"], rich and (first or tier == "thorough")) if v != "reinit"]
+        res.extend(twins)
     return res
 
 
-def _make(spec):
+def _make_direct(spec):
     if spec["family"] == "pdiff":
         from rpylib.model.levymodel.mixed.blackscholes import PureDiffusiveModel
 
         return PureDiffusiveModel(mu=spec["params"]["mu"], sigma=spec["params"]["sigma"])
     return A.make_model(spec)
+
+
+def _touch(model):
+    """Use a model once (density, exponent / characteristic function, first cumulant), as the root finder of the
+    calibration does with every intermediate model: whatever the library caches is cached after that."""
+    try:
+        nu = model.levy_triplet.nu
+        nu(0.3), nu(-0.3)
+        if hasattr(model, "log_characteristic_function") and hasattr(model, "levy_model"):
+            model.log_characteristic_function(1.0, 0.4)
+        else:
+            model.levy_exponent(0.4)
+        model.cumulant.cumulant1(1.0)
+    except Exception:
+        pass
+
+
+def _make(spec):
+    """The model of a spec, reached through the construction route spec["via"] (None = the library's helper called with the
+    parameter values). Raises _Outside when the route does not exist for that model."""
+    via = spec.get("via")
+    if not via:
+        return _make_direct(spec)
+    fam = spec["family"]
+    direct = {k: v for k, v in spec.items() if k != "via"}
+    if via == "reinit" and fam != "bs":
+        return A.make_model(spec)  # the shared twin of mc.alphabets.with_reinit
+    if via == "deepcopy":
+        m = _make_direct(direct)
+        _touch(m)
+        return copy.deepcopy(m)
+    if via == "dill":  # what every pool chunk of the Monte-Carlo engines receives
+        import dill
+
+        m = _make_direct(direct)
+        _touch(m)
+        return dill.loads(dill.dumps(m))
+    donor_spec = dict(direct, params=A.DONOR_PARAMS[fam])
+    if via == "after-donor":  # a second object of the same class, used in between
+        _touch(_make_direct(donor_spec))
+        return _make_direct(direct)
+    if via == "calibration":
+        from rpylib.model.utils import run_default_calibration
+
+        e = direct if spec.get("exp") else dict(direct, exp=True, r=A.RATES[0][0], d=A.RATES[0][1], spot=100.0)
+        try:
+            with warnings.catch_warnings():
+                warnings.simplefilter("ignore")
+                cal = run_default_calibration(_make_direct(e), **CALIBRATION)
+        except ValueError as err:  # "Parameter cannot be calibrated given the market data and its range constraints"
+            raise _Outside(str(err)) from err
+        return cal if spec.get("exp") else cal.levy_model
+    target = _make_direct(direct)
+    cls = type(target)
+
+    def build(p):
+        if spec.get("exp"):
+            return cls(spot=spec.get("spot", 100.0), r=spec["r"], d=spec["d"], parameters=p)
+        return cls(parameters=p)
+
+    names = [n for n in inspect.signature(type(_params(target)).__init__).parameters if n != "self"]
+    if via == "reinit":  # Black-Scholes: the parameter object sits on the exponential model itself
+        params = copy.deepcopy(_params(_make_direct(donor_spec)))
+        for n in names:
+            setattr(params, n, getattr(_params(target), n))
+        params.initialisation()
+        return build(params)
+    if via.startswith("reinit-one:"):
+        # the loop of calibrate_model_parameter: ONE parameter object, one attribute moved away and back, initialisation()
+        # and a model built (and used) at every step
+        name = via.split(":", 1)[1]
+        params = copy.deepcopy(_params(target))
+        setattr(params, name, A.DONOR_PARAMS[fam][name])
+        params.initialisation()
+        _touch(build(params))
+        setattr(params, name, getattr(_params(target), name))
+        params.initialisation()
+        return build(params)
+    raise ValueError(via)
+
+
+def _build(sh, spec):
+    """The model of the spec, or None when it is outside the alphabet (route without solution; exponential model reached by
+    calibration whose E[S_t] is infinite or ill-conditioned)."""
+    try:
+        model = _make(spec)
+    except _Outside:
+        sh.count("route_outside_alphabet")
+        sh.cls("route:" + str(spec.get("via")) + ":no-solution")
+        return None
+    sh.cls("route:" + str(spec.get("via") or "direct").split(":")[0])
+    if spec.get("via") == "calibration" and spec.get("exp"):
+        if not _admissible(complex(0.0, -1.0), _decays(spec, model)):
+            sh.count("route_outside_alphabet")
+            return None
+    return model
 
 
 def _params(model):
@@ -207,20 +390,21 @@ def _params(model):
 def _klass(spec, model):
     """Input class used in violation keys: family, and for CGMY the branch of the activity index."""
     fam = spec["family"]
+    via = "@" + spec["via"].replace(":", "-") if spec.get("via") else ""  # construction route, when not the direct one
     if fam != "cgmy":
-        return fam
+        return fam + via
     y = float(_params(model).y)
     if y < -1:
-        return "cgmy-y<-1"
+        return "cgmy-y<-1" + via
     if y < 0:
-        return "cgmy--1<=y<0"
+        return "cgmy--1<=y<0" + via
     if y == 0:
-        return "cgmy-y=0"
+        return "cgmy-y=0" + via
     if y < 1:
-        return "cgmy-0<y<1"
+        return "cgmy-0<y<1" + via
     if y == 1:
-        return "cgmy-y=1"
-    return "cgmy-1<y<2"
+        return "cgmy-y=1" + via
+    return "cgmy-1<y<2" + via
 
 
 def _decays(spec, model):
@@ -398,6 +582,12 @@ def _ulabel(u):
 # cases
 # ----------------------------------------------------------------------------------------------------------------------
 
+# LevyModel.process_drift() of a (non-exponential) Levy model follows the declared representation; the statement only speaks of
+# the direct-simulation drift of exponential models, so after a representation change this is recorded as a note, not judged
+LEVY_DIRECT_AFTER_REPR_IS_VIOLATION = os.environ.get("VERIF_C10_JUDGE_LEVY_DIRECT") == "1"
+CHAIN_PRE_REPS = [["ZERO"], ["CENTER"], ["ONEONE"], ["TILDE"], ["TILDE", "CENTER"], ["ONEONE", "TILDE"]]
+
+
 def _chain_grids(tier):
     gs = [{"kind": "fixed", "h": 0.1, "n": 5}, {"kind": "uniform", "h": 0.1, "p": 0.99999},
           {"kind": "fixed", "h": 0.1, "n": 5, "refine": 1}]
@@ -433,6 +623,10 @@ def cases(tier):
     for s in levy:
         if s["family"] in ("pdiff", "hem", "merton"):
             out.append({"sub": "mart-direct", "model": s})
+    for s in expo + levy:
+        if s["family"] in ("bs", "pdiff", "hem", "merton") and not s.get("via"):
+            for pre in CHAIN_PRE_REPS:
+                out.append({"sub": "mart-direct", "model": s, "pre_reps": pre})
     for s in expo:
         out.append({"sub": "exponent", "model": s})
     for s in expo:
@@ -440,6 +634,29 @@ def cases(tier):
             continue
         for g in _chain_grids(tier):
             out.append({"sub": "mart-chain", "model": s, "grid": g})
+        if not s.get("via"):
+            for pre in CHAIN_PRE_REPS:
+                for g in _chain_grids(tier)[:2 if tier == "thorough" else 1]:
+                    out.append({"sub": "mart-chain", "model": s, "grid": g, "pre_reps": pre})
+    # construction routes against the directly constructed model
+    for s in levy + expo:
+        if s.get("via") and s["via"] != "calibration":
+            out.append({"sub": "route", "model": s})
+    # the drifts kept by the multilevel coupling over next_level histories
+    for s in expo:
+        if s.get("via") or s["family"] == "bs" or (tier == "quick" and (s["r"], s["d"]) != A.RATES[0]):
+            continue
+        out.append({"sub": "coupling-levels", "model": s, "grid": {"kind": "fixed", "h": 0.2, "n": 3}, "depth": 2})
+        if tier == "thorough":
+            out.append({"sub": "coupling-levels", "model": s, "grid": {"kind": "uniform", "h": 0.2, "p": 0.99999}, "depth": 2})
+    # histories of deterministic_path requests on ONE process object (directly constructed models: the construction route
+    # does not enter Process.deterministic_path)
+    for s in levy + expo:
+        if s.get("via"):
+            continue
+        out.append({"sub": "path-history", "model": s, "proc": "levy"})
+        if s.get("exp") and s["family"] != "bs":
+            out.append({"sub": "path-history", "model": s, "proc": "chain", "grid": {"kind": "fixed", "h": 0.1, "n": 5}})
     return out
 
 
@@ -453,7 +670,7 @@ def check_case(sh, case):
 
 def _common_classes(sh, spec, model, rep, fv):
     sh.cls("family:" + spec["family"] + (":exp" if spec.get("exp") else ""))
-    sh.cls("class:" + _klass(spec, model))
+    sh.cls("class:" + _klass(spec, model).split("@")[0])
     sh.cls("declared:" + rep)
     sh.cls("finite-variation" if fv else "infinite-variation")
 
@@ -466,7 +683,9 @@ def _sub_exponent(sh, case):
     spec = case["model"]
     if spec.get("exp"):
         return _exponent_exp(sh, case)
-    model = _make(spec)
+    model = _build(sh, spec)
+    if model is None:
+        return
     twin = _make(spec)  # determinism self-check: a second fresh object must give bit-identical observations
     a, sigma, nu, rep, fv = _triplet(model)
     kl = _klass(spec, model)
@@ -508,6 +727,7 @@ def _sub_exponent(sh, case):
                 if not _cclose(cf, cref, rtol * max(1.0, t * abs(ref)) * 4):
                     sh.violation(f"C10:exponent:{type(model).__name__}.characteristic_function:not-exp-of-t-times-exponent:{kl}",
                                  f"{spec}: characteristic_function({t}, {_ulabel(u)}) = {cf}, exp(t psi) = {cref}", None)
+    _array_arguments(sh, spec, model, comp, kl, dec, model.levy_exponent)
     if rows:
         sh.nontriv()
         sh.outcome([(r["u"], round(r["lib"].real, 9), round(r["lib"].imag, 9)) for r in rows])
@@ -528,9 +748,38 @@ def _sub_exponent(sh, case):
         )
 
 
+def _array_arguments(sh, spec, model, comp, kl, dec, fn):
+    """The exponent / characteristic function called with an ARRAY of arguments (what the COS pricer, hence the calibration,
+    does) must agree element by element with the scalar calls judged above. fn(arg) -> library value(s)."""
+    for label, us in (("real", [u for u in _u_list() if u.imag == 0]), ("complex", _u_list())):
+        us = [u for u in us if _admissible(u, dec)]
+        if len(us) < 2:
+            continue
+        arr = np.array([u.real for u in us]) if label == "real" else np.array(us, dtype=complex)
+        try:
+            vec = np.asarray(fn(arr), dtype=complex)
+            sca = np.array([complex(fn(u.real if u.imag == 0 else u)) for u in us])
+        except Exception as e:
+            sh.violation(f"C10:exponent:{comp}:raises-{type(e).__name__}:{kl}:array-argument",
+                         f"{A.model_label(spec)}: called with the {label} array {arr.tolist()} raised {e!r}", None)
+            continue
+        sh.count("evaluations")
+        sh.cls("argument:array-" + label)
+        ok = vec.shape == arr.shape and all(_cclose(v, x, 1e-10, max(abs(x), 1e-3)) for v, x in zip(vec.reshape(-1), sca))
+        if not ok:
+            sh.violation(
+                f"C10:exponent:{comp}:array-argument-differs-from-scalar-arguments:{kl}",
+                f"{A.model_label(spec)}: called with the {label} array {[_ulabel(u) for u in us]} gives {vec.tolist()}, "
+                f"argument by argument {sca.tolist()}",
+                {"arguments": [_ulabel(u) for u in us], "array_call": vec.tolist(), "scalar_calls": sca.tolist()},
+            )
+
+
 def _exponent_exp(sh, case):
     spec = case["model"]
-    model = _make(spec)
+    model = _build(sh, spec)
+    if model is None:
+        return
     twin = _make(spec)
     a, sigma, nu, rep, fv = _triplet(model)
     kl = _klass(spec, model)
@@ -585,6 +834,7 @@ def _exponent_exp(sh, case):
                     f"quadrature {complex(ref)}",
                     {"declared": rep, "a": a, "sigma": sigma, "omega_lib": complex(model.omega).real, "omega_ref": w_ref},
                 )
+    _array_arguments(sh, spec, model, comp, kl, dec, lambda arg: model.log_characteristic_function(1.0, arg, log_spot=0.0))
     if rows:
         sh.nontriv()
         sh.outcome([(x["u"], x["t"], round(x["lib"].real, 9), round(x["lib"].imag, 9)) for x in rows])
@@ -596,7 +846,9 @@ def _exponent_exp(sh, case):
 
 def _sub_cumulant(sh, case):
     spec = case["model"]
-    model = _make(spec)
+    model = _build(sh, spec)
+    if model is None:
+        return
     a, sigma, nu, rep, fv = _triplet(model)
     kl = _klass(spec, model)
     comp = type(model.cumulant).__name__.lstrip("_")
@@ -739,7 +991,9 @@ def _sub_repr(sh, case):
     spec = case["model"]
     trunc = case.get("trunc")
     depth = int(case.get("depth", 6))
-    probe = _make(spec)
+    probe = _build(sh, spec)
+    if probe is None:
+        return
     a0, sigma, nu0, rep0, fv = _triplet(probe)
     kl = _klass(spec, probe)
     comp = "LevyTriplet.set_representation"
@@ -751,6 +1005,25 @@ def _sub_repr(sh, case):
     inner, tail = _x_integrals(nu0, trunc, need_inner=fv)
     x_scale = inner[2] + tail[2] + abs(a0) + 1e-300
     psi_probe = None if trunc is not None else complex(getattr(probe, "levy_model", probe).levy_exponent(1.3))
+
+    def stable(m):
+        """Quantities that no representation change may move: the stated mean rate of the process, and for an exponential
+        model the forward from the characteristic function at -i, omega and the drift of the direct simulation (all written
+        in the representation of construction)."""
+        out = {}
+        try:
+            out["cumulant1"] = complex(m.cumulant.cumulant1(1.0))
+        except NotImplementedError:
+            pass
+        if spec.get("exp"):
+            out["log_characteristic_function(1,-i)"] = complex(m.log_characteristic_function(1.0, -1j))
+            out["omega"] = complex(m.omega)
+            out["drift"] = complex(m.drift())
+            if spec["family"] in ("bs", "hem", "merton"):
+                out["process_drift"] = complex(m.process_drift())
+        return out
+
+    stable_probe = stable(probe) if trunc is None else {}
 
     obs = {}  # history -> (representation name, drift)
     registry = {r: [] for r in REPS}  # representation -> representative drifts seen (one expected)
@@ -806,6 +1079,12 @@ def _sub_repr(sh, case):
             if not _cclose(now, psi_probe, 1e-12):
                 sh.violation(f"C10:representation:{comp}:exponent-changed-by-a-representation-change:{kl}",
                              f"levy_exponent(1.3) was {psi_probe}, is {now} after {hist}", {"history": hist})
+            for name, was in stable_probe.items():
+                is_ = stable(obj).get(name)
+                sh.count("evaluations")
+                if is_ is None or not _cclose(is_, was, 1e-12):
+                    sh.violation(f"C10:representation:{comp}:{name.split('(')[0]}-changed-by-a-representation-change:{kl}",
+                                 f"{spec}: {name} was {was}, is {is_} after {hist}", {"history": hist})
         return None
 
     states, transitions, maxd = core.bfs(sh, build, menu, canon, invariant, depth=depth)
@@ -833,7 +1112,9 @@ def _sub_repr(sh, case):
 
 def _sub_mart_cf(sh, case):
     spec = case["model"]
-    model = _make(spec)
+    model = _build(sh, spec)
+    if model is None:
+        return
     a, sigma, nu, rep, fv = _triplet(model)
     kl = _klass(spec, model)
     cname = type(model).__name__
@@ -886,12 +1167,29 @@ def _sub_mart_direct(sh, case):
     from rpylib.process.levyprocess import LevyProcess
 
     spec = case["model"]
-    model = _make(spec)
+    model = _build(sh, spec)
+    if model is None:
+        return
     a, sigma, nu, rep, fv = _triplet(model)
     kl = _klass(spec, model)
     cname = type(model).__name__
     _common_classes(sh, spec, model, rep, fv)
     proc = LevyProcess(model)
+    pre = case.get("pre_reps") or []
+    if pre:
+        # the representation of the model is changed (before and after the process object exists) and the process is used
+        from rpylib.model.levymodel.levymodel import LevyRepresentation
+
+        if "ZERO" in pre and not fv:
+            sh.count("representation_outside_alphabet")
+            return
+        model.levy_triplet.set_representation(LevyRepresentation[pre[0]])
+        proc = LevyProcess(model)
+        for ev in pre[1:]:
+            model.levy_triplet.set_representation(LevyRepresentation[ev])
+        a, sigma, nu, rep, fv = _triplet(model)
+        kl += ":after-" + "-".join(pre)
+        sh.cls("direct-after-representation-history:" + ">".join(pre))
     times = np.array([0.0, 1.0, 2.5])
     path = np.array([_re(v) for v in np.asarray(proc.deterministic_path(times)).reshape(-1)])
     x0 = _re(model.x0_value())
@@ -940,7 +1238,13 @@ def _sub_mart_direct(sh, case):
             sh.count("oracle_inconclusive")
         else:
             sh.count("evaluations")
-            if not core.close(slope, ref, rtol=rtol, atol=ATOL, scale=scale):
+            if not core.close(slope, ref, rtol=rtol, atol=ATOL, scale=scale) and pre and not LEVY_DIRECT_AFTER_REPR_IS_VIOLATION:
+                # observation only (the statement speaks of the direct-simulation drift of EXPONENTIAL models): LevyModel.
+                # process_drift() returns the live levy_triplet.a, i.e. follows the declared representation
+                sh.cls("observation:levy-process_drift-follows-the-declared-representation")
+                sh.note(f"{cname}.process_drift() = {slope!r} after set_representation{pre}; the drift of the triplet in the ZERO "
+                        f"representation (what a drift + compound-Poisson simulation needs) is {ref!r}")
+            elif not core.close(slope, ref, rtol=rtol, atol=ATOL, scale=scale):
                 sh.violation(
                     f"C10:martingale-direct:{cname}.process_drift:not-the-drift-of-the-triplet:{kl}",
                     f"{spec}: direct simulation uses drift {slope!r} + sum of the jumps, but the triplet (a={a!r}, {rep}) has "
@@ -990,15 +1294,79 @@ def _fake_product():
         return prod
 
 
+def _stochastic_dates_product():
+    from rpylib.product.payoff import PayoffDates
+
+    prod = _Obj()
+    prod.payoff = _Obj()
+    prod.payoff.payoff_dates_type = PayoffDates.STOCHASTIC
+    prod.maturity = 1.0
+    return prod
+
+
+def _chain_reinitialisation(sh, spec, kl, mcp, model, pd, scale):
+    """History on the chain process whose drift was just judged: `initialisation` again for the same product, for a product
+    with path-dependent payoff dates (jump-time simulation), with a maximum step (the three simulation modes the engines
+    select), after a second chain over the same grid kind was built and initialised for ANOTHER model; the drift used by the
+    chain must stay the one that satisfies the martingale identity (none of these enters it)."""
+    from rpylib.distribution.sampling import SamplingMethod
+    from rpylib.process.markovchain.markovchain import MarkovChainProcess
+
+    def other_chain():
+        d = dict({k: v for k, v in spec.items() if k != "via"}, params=A.DONOR_PARAMS[spec["family"]], spot=80.0, r=0.04, d=0.015)
+        m = _make(d)
+        o = MarkovChainProcess(model=m, method=SamplingMethod.INVERSION, grid=A.make_grid({"kind": "fixed", "h": 0.1, "n": 5}, m))
+        o.initialisation(_fake_product())
+
+    menu = [
+        ("initialisation-again", lambda: mcp.initialisation(_fake_product())),
+        ("initialisation-for-stochastic-payoff-dates", lambda: mcp.initialisation(_stochastic_dates_product())),
+        ("initialisation-with-a-maximum-step", lambda: mcp.initialisation(_fake_product(), 0.05)),
+        ("initialisation-after-another-chain-was-built", lambda: (other_chain(), mcp.initialisation(_fake_product()))),
+        ("initialisation-again", lambda: mcp.initialisation(_fake_product())),
+    ]
+    for label, op in menu:
+        try:
+            op()
+            pd2 = _re(mcp.process_drift())
+        except Exception as e:
+            sh.violation(f"C10:martingale-chain:MarkovChainProcess.initialisation:raises-{type(e).__name__}:{kl}:{label}",
+                         f"{A.model_label(spec)}: {label} raised {e!r}", None)
+            return
+        sh.count("evaluations")
+        sh.cls("chain-history:" + label)
+        if not core.close(pd2, pd, rtol=1e-13, atol=ATOL, scale=scale):
+            sh.violation(
+                f"C10:martingale-chain:MarkovChainProcess.process_drift:changed-by-{label}:{kl}",
+                f"{A.model_label(spec)}: process_drift() was {pd!r} (judged against the martingale identity), is {pd2!r} after {label}",
+                {"before": pd, "after": pd2},
+            )
+            return
+
+
 def _sub_mart_chain(sh, case):
     from rpylib.distribution.sampling import SamplingMethod
     from rpylib.process.markovchain.markovchain import MarkovChainProcess
 
     spec = case["model"]
     gspec = case["grid"]
-    model = _make(spec)
+    model = _build(sh, spec)
+    if model is None:
+        return
+    pre = case.get("pre_reps") or []
+    if pre:
+        # the caller changed the representation of the model before handing it to the chain (which works on a deep copy
+        # converted to TILDE from whatever is declared at that moment)
+        from rpylib.model.levymodel.levymodel import LevyRepresentation
+
+        if "ZERO" in pre and not model.levy_triplet.nu.jump_of_finite_variation():
+            sh.count("representation_outside_alphabet")
+            return
+        for ev in pre:
+            model.levy_triplet.set_representation(LevyRepresentation[ev])
+        sh.cls("chain-after-representation-history:" + ">".join(pre))
     a, sigma, nu, rep, fv = _triplet(model)
-    kl = _klass(spec, model)
+    kl = _klass(spec, model) + (":after-" + "-".join(pre) if pre else "")
     _common_classes(sh, spec, model, rep, fv)
     sh.cls("grid:" + gspec["kind"] + (":refined" if gspec.get("refine") else ""))
     r, d = float(model.r), float(model.d)
@@ -1061,6 +1429,7 @@ def _sub_mart_chain(sh, case):
     sh.outcome((round(pd, 10), round(lhs, 10)))
     sh.sample({"sub": "mart-chain", "model": A.model_label(spec), "grid": gspec, "points": len(axis),
                "process_drift": pd, "mu_h": mu_h, "mu_tilde": mu_t, "lhs": lhs, "rhs": rhs})
+    _chain_reinitialisation(sh, spec, kl, mcp, model, pd, scale)
     if not core.close(lhs, rhs, rtol=rtol, atol=ATOL, scale=scale):
         sh.violation(
             f"C10:martingale-chain:MarkovChainProcess.process_drift:discounted-spot-not-a-martingale:{kl}",
@@ -1070,3 +1439,311 @@ def _sub_mart_chain(sh, case):
             {"process_drift": pd, "mu_h": mu_h, "mu_tilde": mu_t, "b": b, "lhs": lhs, "rhs": rhs, "excess": lhs - rhs,
              "truncation": [lo, hi], "declared": rep, "quad_err": err},
         )
+
+
+# ----------------------------------------------------------------------------------------------------------------------
+# (e) construction routes: the same parameter values must give the same model
+# ----------------------------------------------------------------------------------------------------------------------
+
+_ROUTE_X = [-2.0, -0.5, -0.1, -0.01, 0.01, 0.1, 0.5, 2.0]
+
+
+def _observables(spec, model):
+    """Public quantities of a model entering the property: triplet, density, exponent / characteristic function, cumulants,
+    omega, simulation drift, intensity. name -> complex | str | None (None = raises)."""
+    obs = {}
+    tr = model.levy_triplet
+    obs["triplet.a"] = complex(tr.a)
+    obs["triplet.sigma"] = complex(tr.sigma)
+    obs["triplet.representation"] = getattr(tr.representation, "name", str(tr.representation))
+    obs["nu.finite_variation"] = str(bool(tr.nu.jump_of_finite_variation()))
+    for x in _ROUTE_X:
+        obs[f"nu({x:g})"] = complex(float(tr.nu(x)))
+    dec = _decays(spec, model)
+    for u in _u_list():
+        if not _admissible(u, dec):
+            continue
+        arg = u.real if u.imag == 0 else u
+        if spec.get("exp"):
+            obs[f"log_characteristic_function(1,{_ulabel(u)})"] = complex(model.log_characteristic_function(1.0, arg, log_spot=0.0))
+        else:
+            obs[f"levy_exponent({_ulabel(u)})"] = complex(model.levy_exponent(arg))
+    for n in range(1, 7):
+        try:
+            obs[f"cumulant{n}"] = complex(getattr(model.cumulant, f"cumulant{n}")(1.0))
+        except NotImplementedError:
+            obs[f"cumulant{n}"] = None
+    for name in ("omega",):
+        if hasattr(model, name):
+            obs[name] = complex(getattr(model, name))
+    for name in ("x0_value", "drift", "diffusion_coefficient", "process_drift", "intensity"):
+        try:
+            obs[name + "()"] = complex(np.asarray(getattr(model, name)()).reshape(-1)[0])
+        except Exception:
+            obs[name + "()"] = None
+    return obs
+
+
+def _sub_route(sh, case):
+    spec = case["model"]
+    model = _build(sh, spec)
+    if model is None:
+        return
+    direct = _make({k: v for k, v in spec.items() if k != "via"})
+    kl = _klass(spec, model)
+    cname = type(model).__name__
+    sh.cls("family:" + spec["family"] + (":exp" if spec.get("exp") else ""))
+    got, ref = _observables(spec, model), _observables(spec, direct)
+    if type(model) is not type(direct):
+        sh.violation(f"C10:route:{cname}:another-class-than-the-directly-constructed-model:{kl}", f"{type(direct).__name__}", None)
+    bad = []
+    for name in ref:
+        sh.count("evaluations")
+        g, r = got.get(name), ref[name]
+        if isinstance(r, complex) and isinstance(g, complex):
+            both_inf = cmath.isinf(r) and g == r
+            ok = both_inf or _cclose(g, r, 1e-12)
+        else:
+            ok = g == r
+        if not ok:
+            bad.append((name, g, r))
+    sh.nontriv()
+    sh.outcome((spec["family"], bool(spec.get("exp")), [(k, round(v.real, 9)) for k, v in sorted(ref.items())
+                                                       if isinstance(v, complex) and math.isfinite(v.real)][:6]))
+    if bad:
+        name, g, r = bad[0]
+        comp = name.split("(")[0]
+        sh.violation(
+            f"C10:route:{cname}.{comp}:differs-from-the-directly-constructed-model:{kl}",
+            f"{A.model_label(spec)} reached through {spec['via']}: {name} = {g!r}, the model built directly from the same parameter "
+            f"values has {r!r} ({len(bad)} of {len(ref)} quantities differ: {[b[0] for b in bad][:8]})",
+            {"route": spec["via"], "differences": [{"quantity": b[0], "route": b[1], "direct": b[2]} for b in bad[:12]]},
+        )
+
+
+# ----------------------------------------------------------------------------------------------------------------------
+# (f) histories of deterministic_path requests on one process object
+# ----------------------------------------------------------------------------------------------------------------------
+
+_T = 1.5
+TIME_GRIDS = [
+    ("uniform7", [0.0, 0.25, 0.5, 0.75, 1.0, 1.25, _T]),
+    ("jumps7-a", [0.0, 0.1, 0.35, 0.36, 0.8, 1.2, _T]),       # same length, same end points: a jump-time grid
+    ("jumps7-b", [0.0, 0.6, 0.7, 0.9, 1.0, 1.4, _T]),
+    ("uniform7-T2", [0.0, 1 / 3, 2 / 3, 1.0, 4 / 3, 5 / 3, 2.0]),  # same length, same first date, other maturity
+    ("late7", [0.3, 0.5, 0.7, 0.9, 1.1, 1.3, _T]),              # same length, same maturity, other first date
+    ("ends2", [0.0, _T]),
+    ("mid3-a", [0.0, 0.4 * _T, _T]),
+    ("mid3-b", [0.0, 0.9 * _T, _T]),
+    ("zero1", [0.0]),                                          # the two requests of Coupling*.next_level
+    ("one1", [1.0]),
+    ("T1", [_T]),
+    ("empty", []),
+]
+
+
+def _history_process(spec, kind, gspec, donor=False):
+    """(process, x0, drift read from a twin object) for the model of the spec (or, donor=True, for another model of the same
+    class: other parameters, and for the exponential models other spot and rates)."""
+    from rpylib.process.levyprocess import LevyProcess
+
+    def model_():
+        if not donor:
+            return _make(spec)
+        if spec["family"] == "pdiff":
+            return _make(dict(spec, params={"mu": 0.07, "sigma": 0.1}))
+        d = dict(spec, params=A.DONOR_PARAMS[spec["family"]])
+        if spec.get("exp"):
+            d.update(spot=80.0, r=0.04, d=0.015)
+        return _make(d)
+
+    def proc_():
+        m = model_()
+        if kind == "levy":
+            return LevyProcess(m)
+        from rpylib.distribution.sampling import SamplingMethod
+        from rpylib.process.markovchain.markovchain import MarkovChainProcess
+
+        p = MarkovChainProcess(model=m, method=SamplingMethod.INVERSION, grid=A.make_grid(gspec, m))
+        p.initialisation(_fake_product())
+        return p
+
+    twin = proc_()
+    return proc_(), _re(twin.model.x0_value()), _re(twin.process_drift())
+
+
+def _sub_path_history(sh, case):
+    """One process object asked for the deterministic part of the path on a history of time grids (what the Monte-Carlo
+    engines do: one request per path, on the jump-time grid of that path for path-dependent products). The history
+    g_i, g_j for every ordered pair (i, j) of TIME_GRIDS (so every grid follows every grid, itself included), then the
+    same grids with a second process object of the same class (another model) asked for the same grid just before, then a
+    caller's buffer overwritten in place (other dates, other end points) between two requests. Every answer must be x0 + process_drift * times of ITS grid
+    (process_drift being tied to the martingale identity by mart-direct / mart-chain)."""
+    spec, kind, gspec = case["model"], case["proc"], case.get("grid")
+    probe = _build(sh, spec)
+    if probe is None:
+        return
+    kl = _klass(spec, probe)
+    sh.cls("family:" + spec["family"] + (":exp" if spec.get("exp") else ""))
+    sh.cls("process:" + kind)
+    proc, x0, pd = _history_process(spec, kind, gspec)
+    other, x0o, pdo = _history_process(spec, kind, gspec, donor=True)
+    comp = type(proc).__name__ + ".deterministic_path"
+    sub = "martingale-direct" if kind == "levy" else "martingale-chain"
+    if math.isnan(pd) or math.isnan(x0):
+        return  # reported by mart-direct / mart-chain
+    seen = set()
+
+    def ask(p, x0_, pd_, label, times, fc, prev):
+        arr = np.array(times, dtype=float)
+        try:
+            got = np.asarray(p.deterministic_path(arr))
+        except Exception as e:
+            key = f"C10:{sub}:{comp}:raises-{type(e).__name__}:{kl}:{label}"
+            if key not in seen:
+                seen.add(key)
+                sh.violation(key, f"deterministic_path({times}) after {prev} raised {e!r}", None)
+            return
+        sh.count("evaluations")
+        ref = x0_ + pd_ * arr
+        ok = got.shape == arr.shape and all(
+            core.close(_re(g), r, rtol=1e-14, atol=1e-15, scale=max(1.0, abs(x0_))) for g, r in zip(got.reshape(-1), ref))
+        if not ok:
+            key = f"C10:{sub}:{comp}:{fc}:{kl}"
+            if key not in seen:
+                seen.add(key)
+                sh.violation(
+                    key,
+                    f"{A.model_label(spec)}: ONE {type(p).__name__} asked for {prev} and then for the dates {label} = {times}: "
+                    f"deterministic_path = {got.tolist()}, but x0 + process_drift * t = {ref.tolist()} (x0 = {x0_!r}, "
+                    f"process_drift = {pd_!r}): the discounted spot is not a martingale at the intermediate dates",
+                    {"previous": prev, "times": times, "got": got.tolist(), "expected": ref.tolist()},
+                )
+
+    grids = TIME_GRIDS
+    # 1. every ordered pair on one object
+    prev = "nothing"
+    for li, gi in grids:
+        for lj, gj in grids:
+            ask(proc, x0, pd, li, gi, "depends-on-the-previous-request", prev)
+            ask(proc, x0, pd, lj, gj, "depends-on-the-previous-request", li)
+            prev = lj
+    # 2. a second object of the same class asked for the same dates in between
+    # (the object under test is first asked for a grid of a length that occurs nowhere else, so that a dependence on ITS OWN
+    # previous request is not reported here)
+    neutral = [0.0, 0.2, 0.9, _T]
+    for li, gi in grids:
+        ask(proc, x0, pd, "neutral4", neutral, "depends-on-the-previous-request", li)
+        ask(other, x0o, pdo, "neutral4", neutral, "depends-on-the-previous-request", li)
+        ask(other, x0o, pdo, li, gi, "depends-on-a-request-to-another-process-object", "requests to the object under test")
+        ask(proc, x0, pd, li, gi, "depends-on-a-request-to-another-process-object", f"neutral4, and another object asked for {li}")
+    # 3. the caller's array overwritten in place between two requests
+    buf = np.array(grids[0][1], dtype=float)
+    ask(proc, x0, pd, "buffer", buf.tolist(), "depends-on-the-identity-of-the-array", "mid3-a")
+    for lj, gj in grids[3:5]:  # other end points: a memo keyed on the VALUES of the end points is not reported here
+        buf[:] = gj
+        try:
+            got = np.asarray(proc.deterministic_path(buf))
+            sh.count("evaluations")
+            ref = x0 + pd * buf
+            if not (got.shape == buf.shape and all(core.close(_re(g), r, rtol=1e-14, atol=1e-15, scale=max(1.0, abs(x0)))
+                                                    for g, r in zip(got.reshape(-1), ref))):
+                key = f"C10:{sub}:{comp}:depends-on-the-identity-of-the-array:{kl}"
+                if key not in seen:
+                    seen.add(key)
+                    sh.violation(key, f"{A.model_label(spec)}: the same array object, overwritten in place with {lj}: "
+                                 f"deterministic_path = {got.tolist()}, expected {ref.tolist()}", None)
+        except Exception as e:
+            sh.violation(f"C10:{sub}:{comp}:raises-{type(e).__name__}:{kl}:buffer", repr(e), None)
+    # the drift and the start value have not moved
+    if not (core.close(_re(proc.process_drift()), pd, rtol=1e-15) and core.close(_re(proc.model.x0_value()), x0, rtol=1e-15)):
+        sh.violation(f"C10:{sub}:{type(proc).__name__}.process_drift:changed-by-deterministic_path-requests:{kl}",
+                     f"process_drift {pd!r} -> {proc.process_drift()!r}", None)
+    sh.nontriv()
+    sh.outcome((kind, round(x0, 10), round(pd, 12)))
+    sh.sample({"sub": "path-history", "model": A.model_label(spec), "process": kind, "requests": 2 * len(grids) ** 2 + 2 * len(grids) + 5,
+               "x0": x0, "process_drift": pd})
+
+
+# ----------------------------------------------------------------------------------------------------------------------
+# (g) the drifts of the multilevel coupling: every level keeps ITS fine and coarse drift, whatever was built afterwards
+# ----------------------------------------------------------------------------------------------------------------------
+
+def _sub_coupling_levels(sh, case):
+    """The real CouplingMarkovChain driven as the multilevel engine drives it: initialisation, a path manager for level 0,
+    then next_level twice (grid refined in place, new fine chain, the previous fine drift frozen as the coarse one through
+    deterministic_path(zeros(1)) / deterministic_path(ones(1))). After EVERY step every path manager built so far is asked for
+    the colliding time grids of TIME_GRIDS: level 0 must answer x0 + b_0 t, level l >= 1 the pair (x0 + b_l t, x0 + b_{l-1} t),
+    where b_l is the drift of a chain built afresh on a fresh grid refined l times (the object mart-chain judges against the
+    martingale identity)."""
+    from rpylib.distribution.sampling import SamplingMethod
+    from rpylib.montecarlo.path import MLMCPath
+    from rpylib.process.coupling.couplingmarkovchain import CouplingMarkovChain
+    from rpylib.process.markovchain.markovchain import MarkovChainProcess
+
+    spec, gspec, depth = case["model"], case["grid"], int(case.get("depth", 2))
+    model = _build(sh, spec)
+    if model is None:
+        return
+    kl = _klass(spec, model)
+    sh.cls("family:" + spec["family"] + (":exp" if spec.get("exp") else ""))
+    product = _fake_product()
+    x0 = _re(model.x0_value())
+
+    def fresh_drift(level):
+        m = _make(spec)
+        mcp = MarkovChainProcess(model=m, method=SamplingMethod.INVERSION, grid=A.make_grid(dict(gspec, refine=level), m))
+        mcp.initialisation(_fake_product())
+        return _re(mcp.process_drift())
+
+    try:
+        cp = CouplingMarkovChain(model=model, method=SamplingMethod.INVERSION, grid=A.make_grid(dict(gspec, refine=0), model))
+        if hasattr(product, "update"):
+            product.update(cp.fine_process.process_representation)
+        cp.initialisation(product)
+        pms = [MLMCPath(deterministic_path=cp.fine_process.deterministic_path, activate_spot_underlying=False)]
+    except Exception as e:
+        sh.violation(f"C10:martingale-chain:CouplingMarkovChain:raises-{type(e).__name__}:{kl}", repr(e)[:300], None)
+        return
+    drifts = [fresh_drift(0)]
+    grids = [g for g in TIME_GRIDS if g[0] in ("uniform7", "jumps7-a", "jumps7-b", "ends2", "mid3-a", "mid3-b", "zero1", "one1")]
+    reported = set()
+
+    def judge(step):
+        for k, pm in enumerate(pms):
+            want = [drifts[k]] if k == 0 else [drifts[k], drifts[k - 1]]
+            for label, times in grids:
+                arr = np.array(times, dtype=float)
+                got = np.asarray(pm.deterministic_path(arr))
+                sh.count("evaluations")
+                ref = np.array([x0 + b * arr for b in want]) if k else x0 + want[0] * arr
+                ok = got.shape == ref.shape and all(
+                    core.close(_re(g), r, rtol=1e-12, atol=1e-14, scale=max(1.0, abs(x0)))
+                    for g, r in zip(got.reshape(-1), ref.reshape(-1)))
+                if not ok:
+                    which = "level-0" if k == 0 else "level-l"
+                    key = f"C10:martingale-chain:CouplingMarkovChain.next_level:deterministic-path-of-{which}-is-not-x0-plus-its-drift-times-t:{kl}"
+                    if key not in reported:
+                        reported.add(key)
+                        sh.violation(
+                            key,
+                            f"{A.model_label(spec)} on {gspec}, after {step}: the path manager of level {k} asked for {label} = {times} "
+                            f"answers {got.tolist()}; x0 + drift * t with the drift(s) {want} of chains built afresh on the grid "
+                            f"refined {k}{' / ' + str(k - 1) if k else ''} time(s) is {ref.tolist()}",
+                            {"step": step, "level": k, "times": times, "got": got.tolist(), "expected": ref.tolist()},
+                        )
+
+    judge("initialisation")
+    for level in range(1, depth + 1):
+        try:
+            cp.next_level(mc_paths=1, path_managers=pms, product=product)
+        except Exception as e:
+            sh.violation(f"C10:martingale-chain:CouplingMarkovChain.next_level:raises-{type(e).__name__}:{kl}",
+                         f"level {level}: {e!r}"[:300], None)
+            return
+        drifts.append(fresh_drift(level))
+        sh.cls(f"coupling-level:{level}")
+        judge(f"next_level #{level}")
+    sh.nontriv()
+    sh.outcome([round(b, 11) for b in drifts])
+    sh.sample({"sub": "coupling-levels", "model": A.model_label(spec), "grid": gspec, "drifts_per_level": drifts})
